@@ -212,7 +212,25 @@ fn run_tables(seed: u64, idx: u64, tier: Tier, out: &mut CaseOut, c05: bool) {
         if !matches!(cfg.deco, Deco::Plain) {
             out.inc("cfg:other_decorator");
         }
-        let t = render_string_traced(cfg, &input, w);
+        // a quarter of the renderings go through the three-step route and render a clone
+        // of the tree (the drawing and the cell order must not depend on the route)
+        let staged = idx >= nex && crng.chance(1, 4);
+        let t = if staged {
+            out.inc("route:clone_of_staged_tree");
+            start_recording();
+            let r = render_staged_noshow(cfg, &input, &[w]);
+            let events = take_events();
+            Traced {
+                out: match r {
+                    Outcome::Ok(mut v) => v.remove(0).0,
+                    o => o.map(|_| String::new()),
+                },
+                events,
+                ticks: 0,
+            }
+        } else {
+            render_string_traced(cfg, &input, w)
+        };
         out.evals += 1;
         let s_full = match &t.out {
             Outcome::Ok(s) => s,
